@@ -17,3 +17,31 @@ let () =
   reg "utf8step" (function [s; c; b] ->
       let (s', c') = decode_step (z_of_string s) (z_of_string c) (z_of_string b) in
       string_of_z s' ^ "," ^ string_of_z c' | _ -> "badargs")
+
+let res_str f = function Ok a -> "ok:" ^ f a | Raise e -> "raise:" ^ exn_name e
+
+let () =
+  (* format <fin> <op> <payload> <key> -> ok:<digest> *)
+  reg "format" (function [fin; op; p; k] ->
+      res_str digest_of_bytes (format_frame (z_of_string fin) (z_of_string op) (bytes_arg p) (bytes_arg k)) | _ -> "badargs");
+  (* formatraw <fin> <r1> <r2> <r3> <op> <mask> <payload> <key> *)
+  reg "formatraw" (function [fin; r1; r2; r3; op; m; p; k] ->
+      res_str digest_of_bytes (abnf_format (z_of_string fin) (z_of_string r1) (z_of_string r2) (z_of_string r3)
+                                 (z_of_string op) (z_of_string m) (bytes_arg p) (bytes_arg k)) | _ -> "badargs");
+  (* sendframe <fin> <op> <payload> <key> <accept list> -> ok:<ret>:<digest of concat>:<nwrites>:<keysleft> *)
+  reg "sendframe" (function [fin; op; p; k; acc] ->
+      res_str (fun (((ret, wire), ks), _) ->
+          string_of_z ret ^ ":" ^ digest_of_bytes (List.concat wire) ^ ":" ^ string_of_int (List.length wire)
+          ^ ":" ^ String.concat "," (List.map (fun w -> string_of_int (List.length w)) wire)
+          ^ ":" ^ string_of_int (List.length ks))
+        (ws_send_frame (z_of_string fin) (z_of_string op) (bytes_arg p) [bytes_arg k] (zlist_arg acc)) | _ -> "badargs");
+  reg "closebody" (function [st; r] -> hex_of_bytes (close_body (z_of_string st) (bytes_arg r)) | _ -> "badargs");
+  reg "maskbig" (function [k; d] -> digest_of_bytes (mask_bigint (bytes_arg k) (bytes_arg d)) | _ -> "badargs");
+  reg "validclose" (function [c] -> b2s (is_valid_close_status (z_of_string c)) | _ -> "badargs");
+  (* validate <fin> <r1> <r2> <r3> <op> <payload> <skip> *)
+  reg "validate" (function [fin; r1; r2; r3; op; p; skip] ->
+      res_str (fun () -> "unit") (abnf_validate (z_of_string fin) (z_of_string r1) (z_of_string r2) (z_of_string r3)
+                                    (z_of_string op) (bytes_arg p) (s2b skip)) | _ -> "badargs");
+  reg "parsehdr" (function [h] ->
+      let ((((((a, b), c), d), e), f), g) = parse_header (bytes_arg h) in
+      String.concat "," (List.map string_of_z [a; b; c; d; e; f; g]) | _ -> "badargs")
